@@ -281,6 +281,14 @@ func (g *gen) flatObj(keys ...string) *Schema {
 			if tt, ok := g.refTarget(-1, "flatT", "int", "str", "regex", "bool"); ok {
 				v = Val{Kind: "ref", Ref: tt.name}
 			}
+		case 2:
+			if g.chance(1, 2, "flatOrRule") {
+				if tt, ok := g.refTarget(-1, "flatOrT", "int", "str"); ok {
+					v = Val{Kind: "orrule", Int: g.num(), Str: "integer", Ref: tt.name}
+				}
+			} else {
+				v.Optional = true
+			}
 		}
 		o.Props = append(o.Props, Prop{Key: k, V: v})
 	}
